@@ -280,34 +280,41 @@ fn sq_default_params_explicit() {
     default_params_keeps_explicit();
 }
 
-/// Number of steps for ALL 32-bit sizes with the library `push` on the vector exactly as the parser leaves it (capacity 0):
-/// exercises the real growth path and the loop arithmetic (div_ceil, termination) on the full domain; the step contents are
-/// not read back here (see the note on push_model).
-fn default_params_count<const N: usize, const META: u32>() {
+/// Number of steps only (the step contents are not read back): cheap enough for ALL 32-bit sizes with the push model and for
+/// sizes <= 64 with the library `push` on the vector exactly as the parser leaves it (capacity 0, real growth path).
+fn default_params_count<const N: usize, const META: u32>(bound: u32, cap: usize) {
     let mut chs = [Ch::any(); N];
     let mut i = 0;
     while i < N {
         chs[i] = Ch::any();
+        kani::assume(chs[i].w <= bound && chs[i].h <= bound);
         i += 1;
     }
     let channels = mk_channels::<N>(&chs, META);
-    let mut sq = Squeeze { num_sq: 0, sp: Vec::new() };
+    let mut sq = Squeeze { num_sq: 0, sp: Vec::with_capacity(cap) };
     sq.set_default_params(&channels);
     let first = META as usize;
     let (w0, h0) = (chs[first].w, chs[first].h);
     let next_same = first + 1 < N && chs[first + 1].w == w0 && chs[first + 1].h == h0;
     let chroma = if N - first > 2 && next_same { 2 } else { 0 };
     assert!(sq.sp.len() == chroma + spec_halvings(w0) + spec_halvings(h0),
-        "[C03,C01] number of default squeeze steps = chroma steps + halvings of w and of h down to 8, for all 32-bit sizes");
-    kani::cover!(sq.sp.len() == 60);
+        "[C03,C01] number of default squeeze steps = chroma steps + halvings of w and of h down to 8");
     kani::cover!(sq.sp.len() == 0);
+    kani::cover!(sq.sp.len() == 8 || bound > 64);
+    kani::cover!(sq.sp.len() == 60 || bound < u32::MAX);
 }
 
 #[kani::proof]
 #[kani::unwind(34)]
+#[kani::stub(std::vec::Vec::push, push_model)]
 fn sq_default_params_count_full() {
-    default_params_count::<3, 0>();
-    default_params_count::<1, 0>();
+    default_params_count::<3, 0>(u32::MAX, MAX_DEFAULT_STEPS);
+}
+
+#[kani::proof]
+#[kani::unwind(6)]
+fn sq_default_params_count_realvec() {
+    default_params_count::<3, 0>(64, 0);
 }
 
 // ------------------------------------------------------------------------------------------------
@@ -419,25 +426,24 @@ fn squeeze_step_case<const N: usize, const M: usize, const BEGIN: u32, const NUM
 }
 
 macro_rules! squeeze_step_harness {
-    ($name:ident, $in_place:literal) => {
+    ($name:ident, $(($m:literal, $b:literal, $n:literal, $ip:literal)),+) => {
         #[kani::proof]
         #[kani::unwind(6)]
         fn $name() {
-            squeeze_step_case::<3, 4, 0, 1, $in_place>();
-            squeeze_step_case::<3, 5, 0, 2, $in_place>();
-            squeeze_step_case::<3, 6, 0, 3, $in_place>();
-            squeeze_step_case::<3, 4, 1, 1, $in_place>();
-            squeeze_step_case::<3, 5, 1, 2, $in_place>();
-            squeeze_step_case::<3, 4, 2, 1, $in_place>();
-            // out of range
-            squeeze_step_case::<3, 7, 0, 4, $in_place>();
-            squeeze_step_case::<3, 5, 2, 2, $in_place>();
-            squeeze_step_case::<3, 4, 3, 1, $in_place>();
+            $(squeeze_step_case::<3, $m, $b, $n, $ip>();)+
         }
     };
 }
-squeeze_step_harness!(sq_meta_step_in_place, true);
-squeeze_step_harness!(sq_meta_step_appended, false);
+// in place (one instantiation costs ~100 s when channels after endc have to be moved)
+squeeze_step_harness!(sq_meta_step_ip_b0n1, (4, 0, 1, true));
+squeeze_step_harness!(sq_meta_step_ip_b0n2, (5, 0, 2, true));
+squeeze_step_harness!(sq_meta_step_ip_b1n1, (4, 1, 1, true));
+squeeze_step_harness!(sq_meta_step_ip_tail, (6, 0, 3, true), (5, 1, 2, true), (4, 2, 1, true));
+squeeze_step_harness!(sq_meta_step_ip_range, (7, 0, 4, true), (5, 2, 2, true), (4, 3, 1, true));
+// residuals appended
+squeeze_step_harness!(sq_meta_step_app_b0, (4, 0, 1, false), (5, 0, 2, false), (6, 0, 3, false));
+squeeze_step_harness!(sq_meta_step_app_b12, (4, 1, 1, false), (5, 1, 2, false), (4, 2, 1, false));
+squeeze_step_harness!(sq_meta_step_app_range, (7, 0, 4, false), (5, 2, 2, false), (4, 3, 1, false));
 
 #[kani::proof]
 #[kani::unwind(6)]
@@ -544,22 +550,18 @@ fn palette_meta_case<const N: usize, const M: usize, const BEGIN: u32, const NUM
     kani::cover!(r.is_err() || NUM == 1);
 }
 
-#[kani::proof]
-#[kani::unwind(6)]
-fn palette_meta_contract() {
-    palette_meta_case::<4, 5, 0, 1>();
-    palette_meta_case::<4, 4, 0, 2>();
-    palette_meta_case::<4, 3, 0, 3>();
-    palette_meta_case::<4, 2, 0, 4>();
-    palette_meta_case::<4, 5, 1, 1>();
-    palette_meta_case::<4, 3, 1, 3>();
-    palette_meta_case::<4, 4, 2, 2>();
-    palette_meta_case::<4, 5, 3, 1>();
-    // out of range
-    palette_meta_case::<4, 1, 0, 5>();
-    palette_meta_case::<4, 4, 3, 2>();
-    palette_meta_case::<4, 5, 4, 1>();
+macro_rules! palette_meta_harness {
+    ($name:ident, $(($m:literal, $b:literal, $n:literal)),+) => {
+        #[kani::proof]
+        #[kani::unwind(6)]
+        fn $name() {
+            $(palette_meta_case::<4, $m, $b, $n>();)+
+        }
+    };
 }
+palette_meta_harness!(palette_meta_b0, (5, 0, 1), (4, 0, 2), (3, 0, 3), (2, 0, 4));
+palette_meta_harness!(palette_meta_b123, (5, 1, 1), (3, 1, 3), (4, 2, 2), (5, 3, 1));
+palette_meta_harness!(palette_meta_range, (1, 0, 5), (4, 3, 2), (5, 4, 1));
 
 // ------------------------------------------------------------------------------------------------
 // (4) RCT: validation only
@@ -605,40 +607,34 @@ fn rct_meta_contract() {
 }
 
 // ------------------------------------------------------------------------------------------------
-// (5) the whole default squeeze: defaults + channel list of a three-channel image (what prepare_transform_info does)
+// (5) two explicit steps in sequence (the loop over the step list): the chroma steps of the default sequence
 // ------------------------------------------------------------------------------------------------
 #[kani::proof]
-#[kani::unwind(12)]
-#[kani::stub(std::vec::Vec::push, push_model)]
-fn sq_default_applied_rgb() {
-    // 3 equal channels w x h, 9 <= w, h <= 16: chroma H, chroma V, then exactly one V and one H step over all three.
-    let w: u32 = kani::any();
-    let h: u32 = kani::any();
-    kani::assume(w >= 1 && h >= 1 && w <= 16 && h <= 16);
-    let c = Ch { w, h, hs: 0, vs: 0, ow: w, oh: h };
-    let mut channels = mk_channels::<3>(&[c, c, c], 0);
-    let mut tr = TransformInfo::Squeeze(Squeeze { num_sq: 0, sp: Vec::with_capacity(8) });
-    let r = tr.prepare_transform_info(&mut channels);
-    assert!(r.is_ok(), "[C03,C01] the default squeeze of a non-empty three-channel image is accepted");
-    let cw = ceil_half(w);
-    let chh = ceil_half(h);
-    // after the chroma steps: [Y w x h, Cb cw x chh, Cr cw x chh, rH1, rH2 (w/2 x h), rV1, rV2 (cw x h/2)]
-    let hh = spec_halvings(h);
-    let hw = spec_halvings(w);
-    assert!(channels.info.len() == 7 + 3 * (hh + hw), "[C03] 4 chroma residuals + 3 residuals per full-image step");
-    assert!(channels.nb_meta_channels == 0, "[C03] no meta channels are created by squeeze on colour channels");
-    let y = Ch::of(&channels.info[0]);
-    let yw = if hw == 1 { cw } else { w };
-    let yh = if hh == 1 { chh } else { h };
-    assert!(y.w == yw && y.h == yh, "[C03] luma after the default squeeze: halved once per direction that exceeds 8");
-    let cb = Ch::of(&channels.info[1]);
-    let cbw = if hw == 1 { ceil_half(cw) } else { cw };
-    let cbh = if hh == 1 { ceil_half(chh) } else { chh };
-    assert!(cb.w == cbw && cb.h == cbh, "[C03] chroma after the default squeeze: halved by the chroma steps and by every full-image step");
-    assert!(cb.hs == 1 + hw as i32 && cb.vs == 1 + hh as i32, "[C03] chroma shifts count the squeezes per direction");
-    let last = Ch::of(&channels.info[channels.info.len() - 1]);
-    // the last channel is always the vertical chroma residual of Cr: cw x floor(h / 2) (in-place steps insert before it)
-    assert!(last.w == cw && last.h == h / 2 && last.hs == 1 && last.vs == 1, "[C03] chroma residuals of the non-in-place steps stay at the end of the list");
-    kani::cover!(hh == 1 && hw == 1);
-    kani::cover!(hh == 0 && hw == 0);
+#[kani::unwind(6)]
+fn sq_meta_two_steps() {
+    let chs = [Ch::any(), Ch::any(), Ch::any()];
+    let mut channels = mk_channels::<3>(&chs, 0);
+    let sq = Squeeze {
+        num_sq: 2,
+        sp: vec![
+            SqueezeParams { horizontal: true, in_place: false, begin_c: 1, num_c: 2 },
+            SqueezeParams { horizontal: false, in_place: false, begin_c: 1, num_c: 2 },
+        ],
+    };
+    let r = sq.transform_channel_info::<i16>(&mut channels, None);
+    let s1 = spec_meta_squeeze::<3, 5>(&chs, 0, true, false, 1, 2);
+    let s2 = match &s1 {
+        Ok((l1, m1)) => spec_meta_squeeze::<5, 7>(l1, *m1, false, false, 1, 2),
+        Err(()) => Err(()),
+    };
+    assert!(r.is_ok() == s2.is_ok(), "[C03] a step list is accepted iff every step is accepted on the list its predecessors produced");
+    if let Ok((list, meta)) = &s2 {
+        assert!(channels.info.len() == 7 && channels.nb_meta_channels == *meta, "[C03] two steps over 2 channels add 4 residual channels");
+        let k: usize = kani::any();
+        kani::assume(k < 7);
+        let got = Ch::of(&channels.info[k]);
+        assert!(got == list[k], "[C03] the steps are applied in list order, each to the channel list left by the previous one");
+    }
+    kani::cover!(r.is_ok());
+    kani::cover!(r.is_err() && s1.is_ok());
 }
